@@ -39,6 +39,14 @@ SUPPRESS = {
     ('br_rsa_i62_private', 'branch'): ('sk.p', 'sk.q', 'same comment in rsa_i62_priv.c'),
 }
 
+# narrower suppressions: a branch whose condition is the result of one of the listed calls, in the listed function only
+SUPPRESS_COND = {
+    'br_ecdsa_i15_sign_raw': (('br_i15_iszero', 'br_i15_sub'), ('sk.x',),
+                              'RFC 6979 3.2 step h.3: a candidate nonce that is 0 or >= q is discarded and the next one drawn; the branch reveals only that a '
+                              'candidate was rejected (probability < 2^-32 per candidate on the supported curves), nothing about the nonce that is used'),
+    'br_ecdsa_i31_sign_raw': (('br_i31_iszero', 'br_i31_sub'), ('sk.x',), 'same loop in the i31 signer'),
+}
+
 # functions whose *return value* is the public accept/reject verdict by their API contract (bearssl_aead.h: "returns 1 on success")
 PUBLIC_RESULTS = ('br_ccm_check_tag', 'br_gcm_check_tag', 'br_gcm_check_tag_trunc', 'br_eax_check_tag', 'br_eax_check_tag_trunc')
 
@@ -117,6 +125,17 @@ entry('rec_chapol.decrypt', ('ssl__ssl_rec_chapol', 'chapol_decrypt'), [X(0), BO
 entry('ccopy', 'br_ccopy', [SEC('ctl'), X(1), X(2), BOT], {(1,): whole('dst'), (2,): whole('src')})
 
 
+def G(name):
+    return AV(frozenset(), frozenset([(('G', name), 0)]))
+
+
+# ---- ECDSA signature generation (RFC 6979 nonce): the private key and everything derived from it (the DRBG state, the nonce k,
+# k^-1, the intermediate sums) are secret.  br_ec_private_key: { int curve; unsigned char *x; size_t xlen; }
+for I, impl in (('i15', 'br_ec_prime_i15'), ('i31', 'br_ec_prime_i31')):
+    entry('ecdsa_%s.sign_raw' % I, 'br_ecdsa_%s_sign_raw' % I, [G(impl), G('br_sha256_vtable'), X(2), X(3), X(4)],
+          {(3, 8): whole('sk.x')})
+
+
 def run_entry(e, units):
     pol = Policy(e['rules'], nonct=e['nonct'])
     pol.ptr_rules = e['ptr_rules']
@@ -142,6 +161,24 @@ def run_entry(e, units):
         sup = SUPPRESS.get((f, what.split(' ')[0]))
         if sup and set(labels) <= set(sup[:-1]):
             continue
+        sc = SUPPRESS_COND.get(f)
+        if sc and what.split(' ')[0] == 'branch' and set(labels) <= set(sc[1]) and f in eng.funcs:
+            fu, fd = eng.funcs[f]
+            fi = {i['id']: i for b in fd['blocks'] for i in b['insts']}
+            bi = fi.get(iid)
+            o = bi['ops'][0] if bi and bi['op'] == 'br' and len(bi['ops']) == 3 else None
+            for _ in range(4):
+                if o is None or o['k'] != 'i':
+                    break
+                j = fi[o['v']]
+                if j['op'] in ('zext', 'trunc'):
+                    o = j['ops'][0]
+                elif j['op'] == 'icmp' and j['ops'][1]['k'] in ('c',) and j['ops'][1]['v'] == 0:
+                    o = j['ops'][0]
+                else:
+                    break
+            if o is not None and o['k'] == 'i' and fi[o['v']]['op'] == 'call' and fi[o['v']].get('callee') in sc[0]:
+                continue
         alarms.append(dict(function=f, line=line, sink=what, labels=labels, via=[c[0] for c in ctx][-4:]))
     stats = dict(eng.stats)
     return dict(name=e['name'], alarms=alarms, contexts=len(eng.args), passes=eng.passes, secs=round(time.time() - t, 2),
